@@ -155,6 +155,36 @@ def check(name, all_props=False):
     return 0
 
 
+def check_scratch(name):
+    """like `check --all`, on a scratch copy of /repo's HEAD with the patch applied (several can run in parallel; /repo is not touched)"""
+    import tempfile
+    d = os.path.join(SEEDED, name)
+    with open(os.path.join(d, "meta.json")) as f:
+        meta = json.load(f)
+    root = tempfile.mkdtemp(prefix="hpo-seeded-")
+    try:
+        sh("git -C /repo archive HEAD | tar -x -C %s" % root)
+        rc, out = sh(["patch", "-p1", "-s", "-i", os.path.join(d, "patch.diff")], cwd=root)
+        if rc:
+            print("patch does not apply:", out)
+            return 1
+        results = {}
+        for pid in ALL:
+            rc, out = sh([os.path.join(VERIF, "bin", "check"), pid, "--tier", "quick", "--no-evidence", "--root", root], cwd=VERIF)
+            viol = [l for l in out.splitlines() if l.startswith(pid + " ") and "VIOLATION" not in l and "obligations=" not in l]
+            results[pid] = {"rc": rc, "reports": viol[:6]}
+    finally:
+        shutil.rmtree(root, ignore_errors=True)
+    meta["checks"] = results
+    meta["caught_by"] = sorted(p for p, r in results.items() if r["rc"] == 1)
+    meta["checked_at"] = time.strftime("%Y-%m-%dT%H:%M:%SZ", time.gmtime())
+    meta["checked_on"] = "scratch copy of HEAD with the patch applied"
+    with open(os.path.join(d, "meta.json"), "w") as f:
+        json.dump(meta, f, indent=1)
+    print(name, "caught_by:", meta["caught_by"])
+    return 0
+
+
 REFACTORS = os.path.join(VERIF, "refactors")
 
 
@@ -241,5 +271,7 @@ if __name__ == "__main__":
         sys.exit(check_refactor(sys.argv[2]))
     elif sys.argv[1] == "backfill":
         backfill()
+    elif sys.argv[1] == "check-scratch":
+        sys.exit(check_scratch(sys.argv[2]))
     elif sys.argv[1] == "check":
         sys.exit(check(sys.argv[2], "--all" in sys.argv))
